@@ -283,9 +283,9 @@ func runC05(s *kernel.Sim) {
 		}.YAML()
 		mutations = append(mutations, "data-sanitation-flow")
 	}
-	quotaW := []int{5, 2, 1, 1, 1, 2, 2}
+	quotaW := []int{5, 2, 1, 1, 1, 2, 2, 2}
 	if plausible {
-		quotaW = []int{3, 1, 0, 0, 0, 1, 1}
+		quotaW = []int{3, 1, 0, 0, 0, 1, 1, 1}
 	}
 	switch tp.Weighted(quotaW) {
 	case 1:
@@ -325,6 +325,27 @@ func runC05(s *kernel.Sim) {
 		}
 		files["quotas/q.yaml"] = q
 		mutations = append(mutations, "expression-filter-quota:"+firstWords(strings.ReplaceAll(q, "\n", " "), 300))
+	case 7: // one field of the quota, or of its internal limit, is wrong or missing
+		strat := func(unit, max, interval string) string {
+			return "    strategy:\n      fixed_window:\n        max: " + max + "\n        interval: " + interval + "\n        interval_unit: " + unit + "\n"
+		}
+		damage := [][3]string{{"fortnight", "5", "1"}, {"minute", "-1", "1"}, {"minute", "5", "0"}, {"", "5", "1"}, {"minute", "many", "1"}}[tp.Choose(5)]
+		bad := strat(damage[0], damage[1], damage[2])
+		switch tp.Choose(4) {
+		case 0:
+			bad = "" // no strategy at all
+		case 1:
+			bad = "    strategy:\n" // an empty strategy
+		}
+		good := strat("minute", "100", "1")
+		qs, ls := good, bad
+		where := "internal limit"
+		if tp.Chance(1, 3) {
+			qs, ls, where = bad, good, "quota"
+		}
+		q := "quotas:\n  - id: cq\n    filter:\n      url: a.com/c\n" + qs + "internal_limits:\n  - id: l1\n    parent_id: cq\n    filter:\n      url: a.com/c\n" + ls
+		files["quotas/q.yaml"] = q
+		mutations = append(mutations, "quota-field-damaged("+where+"):"+firstWords(strings.ReplaceAll(bad, "\n", " "), 120))
 	case 4: // two hosts in two files
 		files["quotas/q.yaml"] = strings.ReplaceAll(c08Quota, "a.com/p1", "a.com/c")
 		files["quotas/q2.yaml"] = strings.ReplaceAll(strings.ReplaceAll(c08Quota, "cq", "cq2"), "a.com/p1", "a.com/d")
